@@ -187,6 +187,37 @@ let predict (c : string) (obs : string) : string * string * bool =
               end in
       let nontrivial = cfg <> [] && (both <> [] || List.length items > 1) in
       (pred, verdict, nontrivial)
+  | "hist" ->
+      (* scripted history on the real guns: exact comparison with the transport model t_run, judged by hist_ok / clients_ok *)
+      let ka = bool_of_field (next ()) in
+      let sc = parse_sc (next ()) in
+      let mi = eff_max_idle (z_of_int (num ())) in
+      let _size = next () in
+      let n = num () in
+      let nev = num () in
+      let h = List.init nev (fun _ -> let t = next () in
+                let k = nat_of_int (int_of_string (String.sub t 1 (String.length t - 1))) in
+                if t.[0] = 'B' then Begin k else End k) in
+      let requests = List.length (List.filter (function Begin _ -> true | End _ -> false) h) in
+      let show_log l = if l = [] then "-" else String.concat "," (List.map (fun (i, c) -> Printf.sprintf "%d:%d" i c) l) in
+      let model_d = List.length (distinct_clients (instance_clients sc (nat_of_int n))) in
+      let pred = (match t_run (client_of (prepare_pool sc)) ka mi t_init h with
+        | None -> "not-a-history"
+        | Some st ->
+            Printf.sprintf "run=ok dials=%d log=%s cl=%d/%d" (int_of_nat st.t_dials)
+              (show_log (List.rev_map (fun (i, c) -> (int_of_nat i, int_of_nat c)) st.t_log)) model_d n) in
+      let v = (try
+          Scanf.sscanf obs "run=%s dials=%d log=%s cl=%d/%d" (fun run dials lg d b ->
+            let log = if lg = "-" then [] else
+              List.map (fun p -> match ints_of ':' p with Some [i; c] -> (i, c) | _ -> failwith "log") (String.split_on_char ',' lg) in
+            let nlog = List.map (fun (i, c) -> (nat_of_int i, nat_of_int c)) log in
+            if run <> "ok" then "BAD:hist-run-" ^ run
+            else if not (b = n && clients_ok sc (nat_of_int n) (nat_of_int d)) then "BAD:client-sharing"
+            else if not (conn_ok ka sc.sc_enabled (nat_of_int n) (nat_of_int requests) (nat_of_int dials)) then "BAD:connection-count"
+            else if not (hist_ok ka sc.sc_enabled (nat_of_int n) (nat_of_int requests) (nat_of_int dials) nlog) then "BAD:one-connection-per-instance"
+            else "ok")
+        with _ -> "BAD:unparsable-observation") in
+      (pred, v, true)
   | "tr" ->
       (* specification of NewTransport / NewDialer: every field of the config lands in the same-named field of the built object;
          the field list comes from the implementation's own structs (reflection), at least the 8 + 4 fields known today *)
